@@ -1926,6 +1926,10 @@ def p_instanceDeclaration(p):
                     # If array type insert list, else insert item 0 from list
                     pprop.value = objs if cprop.is_array else objs[0]
                     pprop.embedded_object = embedded_object_type
+                else:
+                    # NULL or empty array: must not keep the default value
+                    # copied from the class property
+                    pprop.value = pval
             else:
                 if pval:
                     ival_is_array = isinstance(pval, list)
